@@ -140,8 +140,19 @@ class Canon:
         if k in ("tuple", "list", "setlit"):
             return (k, tuple(self.norm(x) for x in t[1]))
         if k == "mcall":
-            return ("mcall", self.norm(t[1]), t[2], tuple(self.norm(a) for a in t[3]),
-                    tuple((kk, self.norm(v)) for kk, v in t[4]))
+            recv = self.norm(t[1])
+            args = tuple(self.norm(a) for a in t[3])
+            if t[2] == "copy" and not args and not t[4] \
+                    and (self._is_vector(recv) or self._is_tensor(recv)):
+                # ndarray.copy() is np.copy(ndarray)
+                return ("copy", recv, ("method-copy", self._show(recv, {})))
+            if t[2] == "get" and len(args) == 2 and not t[4] \
+                    and recv[0] in ("dictobj", "comp") and (recv[0] != "comp" or recv[1] == "dict"):
+                # m.get(k, d) on a mapping the analysed code built itself is the conditional
+                # `k in m ? m[k] : d` (documents / scenario dicts keep their .get spelling)
+                return self.norm(("phi", ("cmp", "in", args[0], recv), ("sub", recv, args[0]),
+                                  args[1]))
+            return ("mcall", recv, t[2], args, tuple((kk, self.norm(v)) for kk, v in t[4]))
         if k == "exists":
             return ("exists", t[1], tuple(self.norm(x) for x in t[2]))
         if k == "loopout":
@@ -1042,6 +1053,53 @@ def respell(s):
     if not isinstance(s, str) or ("items()" not in s and "values()" not in s
                                   and "keys()" not in s):
         return s
+    # enumerate(D.items()) / enumerate(D.values()) / enumerate(D.keys()) are enumerate(D)
+    for view, tails in ((".items()", (("[1][1]", "V"), ("[1][0]", "K"), ("[0]", "I"))),
+                        (".values()", (("[1]", "V"), ("[0]", "I"))),
+                        (".keys()", (("[1]", "K"), ("[0]", "I")))):
+        marker = "each(enumerate("
+        pos = 0
+        while True:
+            k = s.find(marker, pos)
+            if k < 0:
+                break
+            depth, end = 0, None
+            for j in range(k + 4, len(s)):
+                if s[j] == "(":
+                    depth += 1
+                elif s[j] == ")":
+                    depth -= 1
+                    if depth == 0:
+                        end = j
+                        break
+            if end is None:
+                break
+            inner = s[k + len(marker):end - 1]          # inside enumerate( ... )
+            if not inner.endswith(view):
+                pos = k + 5
+                continue
+            base = inner[:-len(view)]
+            e = f"each(enumerate({base}))"
+            j = end + 1
+            primes = ""
+            while j < len(s) and s[j] == "'":
+                primes += "'"
+                j += 1
+            e += primes
+            rep = None
+            for tail, what in tails:
+                if s.startswith(tail, j):
+                    rep = {"I": f"{e}[0]", "K": f"{e}[1]", "V": f"{base}[{e}[1]]"}[what]
+                    j += len(tail)
+                    break
+            if rep is None:
+                rep = e
+            s = s[:k] + rep + s[j:]
+            pos = k + len(rep)
+    # binders EXISTS[enumerate(D.items())]
+    for view in (".items()", ".values()", ".keys()"):
+        for q in ("", "'", "''"):
+            s = s.replace(f"{view}){q}]", f"){q}]")
     # innermost-first: repeatedly rewrite the first each(...) whose argument has no view inside
     # other than at its very end
     guard = 0
@@ -1110,4 +1168,6 @@ def respell_loop(s):
     for view in (".items()", ".keys()", ".values()"):
         if s.endswith(view):
             return respell(s[:-len(view)])
+        if s.startswith("enumerate(") and s.endswith(view + ")"):
+            return "enumerate(" + respell(s[len("enumerate("):-len(view) - 1]) + ")"
     return respell(s)
